@@ -515,7 +515,7 @@ void Interpolation_2D::Save_Function(std::string filename, unsigned int x_points
 // Root finding with Ridder's method
 double Find_Root(std::function<double(double)> func, double xLeft, double xRight, double xAccuracy)
 {
-	const int Max_Iterations = 50;
+	const int Max_Iterations = 2200;   // the bracket at least halves per iteration: enough for any bracket of doubles
 	// 1. Check if xLeft<xRight, otherwise swap.
 	if(xLeft > xRight)
 	{
@@ -563,9 +563,6 @@ double Find_Root(std::function<double(double)> func, double xLeft, double xRight
 			double f3 = func(x3);
 			// New point
 			double x4 = x3 + (x3 - x1) * Sign(f1 - f2) * f3 / sqrt(f3 * f3 - f1 * f2);
-			// Check if we found the root
-			if(fabs(x4 - result) < xAccuracy)
-				return x4;
 			// Prepare next iteration
 			result	  = x4;
 			double f4 = func(x4);
@@ -596,6 +593,9 @@ double Find_Root(std::function<double(double)> func, double xLeft, double xRight
 				std::cerr << "Error in libphysica::Find_Root(). Ridder's method does not reach the root." << std::endl;
 				std::exit(EXIT_FAILURE);
 			}
+			// Check if we found the root: x4 is an end of the new bracket, the root lies within its width.
+			if(fabs(x2 - x1) < xAccuracy)
+				return result;
 		}
 		std::cout << "Warning in libphysica::Find_Root(): Iterations exceed the maximum. Final value f(" << result << ")=" << func(result) << std::endl;
 		return result;
